@@ -56,13 +56,18 @@ def run_cases(mod, cases, driver, want_model=True):
         except Exception as e:
             res = ("oracle-crash:" + type(e).__name__, f"oracle could not evaluate implementation output: {e!r}"[:300])
         if res is not None:
-            oracle_fails.append({"case": case, "sig": res[0], "msg": res[1], "impl": _short(out)})
+            # a corpus case that HOLDS a recorded finding names its class itself (`finding_class`): the finding is identified by this
+            # specific input, generated cases never carry the field
+            sig = case["finding_class"] if isinstance(case, dict) and case.get("finding_class") else res[0]
+            oracle_fails.append({"case": case, "sig": sig, "msg": res[1], "impl": _short(out)})
     n_model = 0
     if want_model and driver is not None and driver.available():
         reqs, owners = [], []
         for i, (case, out) in enumerate(zip(cases, impl_outs)):
             if isinstance(out, dict) and out.get("private_name_missing"):
                 continue
+            if isinstance(case, dict) and case.get("finding_class"):
+                continue    # the implementation is known to be wrong on this input: judged by the oracle, not compared with the model
             try:
                 rs = mod.requests(case, out)
             except Exception as e:
@@ -566,6 +571,8 @@ def body(prop, args, seed, t0):
     else:
         cases = list(mod.corpus()) + list(mod.generate(rng, tier))
     impl_outs, oracle_fails, mismatches, n_model = run_cases(mod, cases, driver)
+    from harness import finding_probes
+    oracle_fails = oracle_fails + finding_probes.run(prop)
 
     known, _fixed = common.load_known()
     known_sigs = {k["sig"]: k for k in known if k["property"] == prop}
